@@ -981,6 +981,45 @@ func (o *oracles) checkTags(st stepRef) {
 			o.s.res.Count("c06_search_checks", 1)
 		}
 	}
+	// a view that evaluates pending tags itself (PrefetchAllTags, the stream
+	// list of the HTTP API): every shown tag must be right, pending or not
+	pr := o.s.probe(Op{K: "FreshViewPrefetch"})
+	pv := pr.View
+	if pv == nil {
+		return
+	}
+	if pv.Err != "" {
+		if strings.Contains(pv.Err, "not found") || strings.Contains(pv.Err, "same converter name") {
+			// a definition names a converter that does not exist: evaluation legitimately fails
+			o.s.res.Count("c06_prefetch_errors", 1)
+			return
+		}
+		o.violate("view-prefetch", "error", "stream list with prefetched tags failed: "+pv.Err)
+		return
+	}
+	for _, t := range o.state.Tags {
+		g, ok := r.G[t.Name]
+		if !ok || o.flagged[t.Name] || r.GErr[t.Name] != "" && r.GErr[t.Name] != "impossible" {
+			continue
+		}
+		G := setOf(g)
+		class := o.rootClass(t.Name, r.GErr)
+		for _, sl := range pv.Streams {
+			has := false
+			for _, tn := range sl.Tags {
+				if tn == t.Name {
+					has = true
+				}
+			}
+			if has != G[uint(sl.ID)] {
+				if o.violate("view-prefetch", class+"/shown@"+o.trigger(), fmt.Sprintf("stream list with prefetched tags shows tag %s on stream %d = %v, definition %q evaluates to %v", t.Name, sl.ID, has, t.Definition, G[uint(sl.ID)])) {
+					return
+				}
+				break
+			}
+		}
+		o.s.res.Count("c06_prefetch_checks", 1)
+	}
 }
 
 // defClass groups definitions for violation signatures.
